@@ -2,6 +2,8 @@ package main
 
 import (
 	"io"
+	"os"
+	"path/filepath"
 
 	"github.com/codenotary/immudb/embedded/logger"
 )
@@ -9,4 +11,30 @@ import (
 // quietLogger: the stores opened by the harness must not flood stdout.
 func quietLogger() logger.Logger {
 	return logger.NewSimpleLoggerWithLevel("vh", io.Discard, logger.LogError)
+}
+
+// repoDir: where the repository under test lives (the harness module replaces immudb => this dir).
+func repoDir() string {
+	if d := os.Getenv("VERIF_REPO"); d != "" {
+		return d
+	}
+	return "/repo"
+}
+
+func copyDir(src, dst string) error {
+	return filepath.Walk(src, func(p string, info os.FileInfo, err error) error {
+		if err != nil {
+			return err
+		}
+		rel, _ := filepath.Rel(src, p)
+		t := filepath.Join(dst, rel)
+		if info.IsDir() {
+			return os.MkdirAll(t, 0o755)
+		}
+		b, err := os.ReadFile(p)
+		if err != nil {
+			return err
+		}
+		return os.WriteFile(t, b, 0o644)
+	})
 }
